@@ -454,7 +454,20 @@ def rule_R09_4(ctx):
                 if ch == "," and depth == 0:
                     break
                 key += ch
-            if re.search(r"\busize\b", key):
+            addr = False
+            if re.search(r"\busize\b", key) and len(c.args) > 1:
+                # a key made of addresses (Arc::as_ptr ...) is not a source
+                # position: identity/address hazards belong to C10/C19
+                import prov as _prov
+                pv = ctx.memo("prov_stop", lambda: _prov.Prov(prog, foreign="stop"))
+                org = pv.origins(f, c.args[1], (_prov.ANY,))
+                calls_ = [x for x in org if x[0] == "call"]
+                addr = bool(calls_) and len(calls_) == len(org) and all(
+                    x[3].split("::")[-1] in ("as_ptr", "addr", "as_mut_ptr", "into_raw") for x in calls_)
+            if re.search(r"\busize\b", key) and addr:
+                r.inst("%s: table keyed by addresses (not positions)" % f.path)
+                r.ok()
+            elif re.search(r"\busize\b", key):
                 r.fail("%s | table keyed by %s" % (f.path, key.strip()[:40]),
                        "%s uses a table keyed by %s, i.e. by source "
                        "positions/offsets: evaluation can depend on layout"
